@@ -37,7 +37,12 @@ EXPLANATION = (
     "object handed in from outside (address updates are merged into the stored instance only) - reported only when the inserted value can be "
     "nothing else; remove_by_address must decide 'uses the address' over the values of peer.addresses, not by a probe under the class of the "
     "argument (the dict is keyed by the class of the registered object, addresses compare by value). remove_peer must purge the address cache by scanning it (by value), not by the addresses of the Peer "
-    "object it was handed (another instance of the same identity may carry other addresses)."
+    "object it was handed (another instance of the same identity may carry other addresses). "
+    "Address update of a known identity (add_verified_peer finds the key in the by-key index): what is written into the STORED instance's address "
+    "dict from the handed-in Peer object must cover every address of that object (addresses.update(other.addresses), a loop over all of "
+    "other.addresses, a Peer method that does so) - a single picked address (other.address is the preferred interface only) leaves a replaced "
+    "address of another interface in the stored peer; reported only when the write can be nothing but one picked address and the function has no "
+    "complete merge."
 )
 
 NW = "ipv8/peerdiscovery/network.py"
@@ -4339,6 +4344,239 @@ def rule_walkable_and_peer(ctx: Ctx) -> None:
 
 
 # ------------------------------------------------------------------------------------------------------------------
+# the address-update path.  A verified identity that announces itself again (add_verified_peer with a key the graph already knows) is not
+# stored a second time: the addresses of the handed-in Peer object are merged into the STORED instance, and every lookup (by address,
+# walkable addresses, remove_by_address, the snapshot) reads the addresses of that stored instance.  Necessary: whatever is written into the
+# stored instance's address dict from another Peer object covers EVERY address of that object (`stored.addresses.update(other.addresses)`,
+# a loop over all of other.addresses), not one picked address (`other.address` is only the preferred interface; the addresses of the other
+# interfaces of the update would be dropped and the stored peer would keep a replaced address of a non-preferred interface).
+# Decided positively only: a finding needs a write that can only be a single picked address, in a function with no complete merge.
+
+_ADDR_DICTS = ("addresses", "_addresses")
+_DICT_VIEWS = ("items", "copy")
+
+
+def _stored_peer(ctx: Ctx, net, fi: FuncInfo, e: ast.AST, depth: int = 2) -> bool:
+    """e can only be a Peer instance drawn from the graph's own collections (by-key dict / getter, a loop over the verified peers), or a
+    parameter of a private helper that every caller binds to such an instance"""
+    e = strip_cast(e)
+    if e is None or _is_name(e, "self"):
+        return False
+
+    def drawn(x):
+        return isinstance(x, (ast.Call, ast.Subscript, ast.IfExp, ast.BoolOp)) and any(mentions(x, s) for s in ("self.verified_by_public_key_bin", "self.get_verified_by_public_key_bin",
+                                                                              "self.get_verified_by_address"))
+    if _resolves_to(fi, e, drawn):
+        return True
+    if isinstance(e, (ast.Attribute, ast.Subscript)) and depth > 0 and getattr(e, "_parent", None) is not None:
+        # a component read of a result object (`verdict.known`, `outcome[1]`): what the component was built from on every executable path
+        # that arrives at the read
+        d = _decisions(ctx, fi)
+        sp = _subject_path(e)
+        if d is not None and sp is not None and sp[1] and sp[0] in d.tracked:
+            try:
+                live = _reach(ctx, fi)
+                vals = []
+                for n_ in [x for x in ctx.cfg(fi).nodes_for(e) if x in live]:
+                    for s_ in d.states_at(n_):
+                        vals.append(d.component(s_, e))
+            except _Overflow:
+                return False
+            vals = [v for v in vals if v is None or const_value(v) is not None]     # a constant-None component cannot be written through (the write would raise)
+            return bool(vals) and all(v is not None and v is not e and _stored_peer(ctx, net, fi, v, depth - 1) for v in vals)
+    if isinstance(e, ast.Name) and e.id in _params_of(fi) and not local_defs(fi, e.id):
+        if depth <= 0 or not _is_private(fi) or fi.cls is not net:
+            return False
+        sites = _internal_call_sites(ctx, net, fi)
+        if not sites:
+            return False
+        args = [(caller, _arg_for(c, fi, e.id)) for caller, c in sites]
+        return all(a_ is not None and _stored_peer(ctx, net, caller, a_, depth - 1) for caller, a_ in args)
+    if isinstance(e, ast.Name) and e.id not in fi.params():
+        defs = local_defs(fi, e.id)
+        loops = [st for st, v, _i in defs if v is None and isinstance(st, (ast.For, ast.AsyncFor)) and _is_name(st.target, e.id)]
+        if defs and len(loops) == len(defs):
+            return all(_resolves_to(fi, st.iter, lambda y: _verified_members(fi, y)) for st in loops)
+        if defs and depth > 0 and all(idx is not None and isinstance(strip_cast(v), (ast.Tuple, ast.List)) and idx < len(strip_cast(v).elts)
+                                      and not any(isinstance(x, ast.Starred) for x in strip_cast(v).elts) for _st, v, idx in defs):
+            # a, b = <x>, <y>: the element at the position of the name
+            return all(_stored_peer(ctx, net, fi, strip_cast(v).elts[idx], depth - 1) for _st, v, idx in defs)
+    return False
+
+
+def _addr_dict_owner(fi: FuncInfo, e: ast.AST) -> ast.AST | None:
+    """e evaluates <P>.addresses / <P>._addresses (also through dict(..) / .items() / .copy(), or a local alias): P, else None"""
+    e = strip_cast(e)
+    for _ in range(4):
+        if isinstance(e, ast.Call) and isinstance(e.func, ast.Name) and e.func.id in ("dict", "OrderedDict") and len(e.args) == 1 and not e.keywords:
+            e = strip_cast(e.args[0])
+        elif isinstance(e, ast.Call) and isinstance(e.func, ast.Attribute) and e.func.attr in _DICT_VIEWS and not e.args and not e.keywords:
+            e = strip_cast(e.func.value)
+        elif isinstance(e, ast.Name) and e.id not in fi.params():
+            r = strip_cast(resolve(fi, e))
+            if r is e or isinstance(r, ast.Name):
+                break
+            e = r
+        else:
+            break
+    return e.value if isinstance(e, ast.Attribute) and e.attr in _ADDR_DICTS else None
+
+
+def _addr_write_sites(fi: FuncInfo, is_recv) -> list[tuple[ast.AST, str, ast.AST | None]]:
+    """(node, 'one' | 'many', written value) for every write into the address dict of a Peer that satisfies is_recv"""
+    def recv_dict(e):
+        o = _addr_dict_owner(fi, e)
+        return o is not None and is_recv(o)
+    out = []
+    for n in walk_no_nested(fi.node):
+        if isinstance(n, ast.Call) and isinstance(n.func, ast.Attribute):
+            a = n.func.attr
+            if a == "add_address" and len(n.args) == 1 and is_recv(n.func.value):
+                out.append((n, "one", n.args[0]))
+            elif a == "update" and recv_dict(n.func.value):
+                out.append((n, "many", n.args[0] if len(n.args) == 1 and not n.keywords and not isinstance(n.args[0], ast.Starred) else None))
+            elif a in ("__setitem__", "setdefault") and len(n.args) == 2 and recv_dict(n.func.value):
+                out.append((n, "one", n.args[1]))
+        elif isinstance(n, (ast.Assign, ast.AnnAssign)) and n.value is not None:
+            for t in (n.targets if isinstance(n, ast.Assign) else [n.target]):
+                if isinstance(t, ast.Attribute) and t.attr == "address" and is_recv(t.value):
+                    out.append((n, "one", n.value))
+                elif isinstance(t, ast.Subscript) and recv_dict(t.value):
+                    out.append((n, "one", n.value))
+        elif isinstance(n, ast.AugAssign) and isinstance(n.op, ast.BitOr) and recv_dict(n.target):
+            out.append((n, "many", n.value))
+    return out
+
+
+def _all_addresses_iteration(fi: FuncInfo, loop, is_recv) -> tuple[str | None, str | None]:
+    """`for .. in <S>.addresses.values() / .items() / <S>.addresses` over the address dict of a Peer S that is not the receiver:
+    (name bound to the address, name bound to the interface key) - either may be None"""
+    it = _unwrap(loop.iter)
+    it = strip_cast(resolve(fi, it)) if isinstance(it, ast.Name) else it
+    it = _unwrap(it)
+    t = loop.target
+    if isinstance(it, ast.Call) and isinstance(it.func, ast.Attribute) and not it.args and it.func.attr in ("values", "items", "keys"):
+        o = _addr_dict_owner(fi, it.func.value)
+        if o is None or is_recv(o):
+            return None, None
+        if it.func.attr == "values" and isinstance(t, ast.Name):
+            return t.id, None
+        if it.func.attr == "keys" and isinstance(t, ast.Name):
+            return None, t.id
+        if it.func.attr == "items" and isinstance(t, (ast.Tuple, ast.List)) and len(t.elts) == 2 and all(isinstance(x, ast.Name) for x in t.elts):
+            return t.elts[1].id, t.elts[0].id
+        return None, None
+    o = _addr_dict_owner(fi, it)
+    if o is not None and not is_recv(o) and isinstance(t, ast.Name):
+        return None, t.id
+    return None, None
+
+
+def _addr_write_covers(ctx: Ctx, fi: FuncInfo, node: ast.AST, kind: str, value: ast.AST | None, is_recv) -> tuple[str, str, ast.AST]:
+    """what a write into the receiver's address dict hands over: ('all', ..) every address of another Peer object, ('part', ..) one picked
+    address of another Peer object, ('unknown', ..) anything else; the third component is the node that stands for the write on the CFG"""
+    if value is None:
+        return "unknown", "an update this rule does not read", node
+    v = strip_cast(value)
+    if kind == "many":
+        o = _addr_dict_owner(fi, v)
+        if o is not None and not is_recv(o):
+            return "all", f"all of `{norm(o)[:30]}`'s addresses", node
+        r = strip_cast(resolve(fi, v)) if isinstance(v, ast.Name) else v
+        if isinstance(r, ast.DictComp) and len(r.generators) == 1 and not r.generators[0].ifs:
+            a_, k_ = _all_addresses_iteration(fi, r.generators[0], is_recv)
+            if a_ is not None and _is_name(r.value, a_):
+                return "all", f"every address of `{norm(r.generators[0].iter)[:40]}`", node
+        if isinstance(r, ast.Dict) and r.keys and all(k is not None for k in r.keys) \
+                and all(isinstance(strip_cast(resolve(fi, x)), ast.Attribute) and strip_cast(resolve(fi, x)).attr == "address"
+                        and not is_recv(strip_cast(resolve(fi, x)).value) for x in r.values):
+            return "part", f"only the preferred address (`{norm(r)[:50]}`)", node
+        return "unknown", f"`{norm(v)[:40]}`", node
+    # one address: inside a loop over all addresses of the other Peer it is every address, provided every iteration writes
+    if isinstance(v, ast.Name):
+        cfg = ctx.cfg(fi)
+        for loop in [a for a in ancestors(node) if isinstance(a, (ast.For, ast.AsyncFor))]:
+            a_, k_ = _all_addresses_iteration(fi, loop, is_recv)
+            if a_ is not None and v.id == a_:
+                if _every_iteration(cfg, loop, cfg.nodes_for(node)) and _exhaustive(cfg, loop):
+                    return "all", f"every address of `{norm(loop.iter)[:40]}`", loop
+                return "unknown", f"some addresses of `{norm(loop.iter)[:40]}`", node
+    r = strip_cast(resolve(fi, v))
+    if isinstance(r, ast.Attribute) and r.attr == "address" and not is_recv(r.value) and not _is_name(r.value, "self"):
+        return "part", f"only the preferred address `{norm(r)[:40]}`", node
+    key = r.slice if isinstance(r, ast.Subscript) else (r.args[0] if isinstance(r, ast.Call) and isinstance(r.func, ast.Attribute) and r.func.attr == "get" and r.args
+                                                        else None)
+    if key is not None:
+        o = _addr_dict_owner(fi, r.value if isinstance(r, ast.Subscript) else r.func.value)
+        if o is not None and not is_recv(o):
+            cfg = ctx.cfg(fi)
+            for loop in [a for a in ancestors(node) if isinstance(a, (ast.For, ast.AsyncFor))]:
+                a_, k_ = _all_addresses_iteration(fi, loop, is_recv)
+                if k_ is not None and _is_name(key, k_):
+                    if _every_iteration(cfg, loop, cfg.nodes_for(node)) and _exhaustive(cfg, loop):
+                        return "all", f"every address of `{norm(loop.iter)[:40]}`", loop
+                    return "unknown", f"some addresses of `{norm(loop.iter)[:40]}`", node
+            if not any(isinstance(a, (ast.For, ast.AsyncFor, ast.While)) for a in ancestors(node)):
+                return "part", f"only the address of one interface (`{norm(r)[:40]}`)", node
+    return "unknown", f"`{norm(v)[:40]}`", node
+
+
+def _peer_method_merges(ctx: Ctx, fi: FuncInfo, call: ast.Call, is_recv) -> tuple[str, str] | None:
+    """`<stored>.<m>(other)` where m is a method of Peer other than add_address: the method is read with self bound to the receiver"""
+    if not (isinstance(call.func, ast.Attribute) and is_recv(call.func.value)) or call.func.attr == "add_address":
+        return None
+    pa = ctx.repo.try_cls("Peer", "ipv8/peer.py")
+    t = pa.lookup(call.func.attr) if pa is not None else None
+    if t is None or "property" in t.decorator_names():
+        return None
+
+    def me(x):
+        return _is_name(x, "self")
+    res = [_addr_write_covers(ctx, t, n, k, v, me) for n, k, v in _addr_write_sites(t, me)]
+    if not res:
+        return None
+    alls = [r for r in res if r[0] == "all"]
+    if alls:
+        cfg = ctx.cfg(t)
+        nodes = [x for r in alls for x in cfg.nodes_for(r[2])]
+        if nodes and cfg.exit not in cfg.reach(cut_nodes=nodes, follow_exc=False):
+            return "all", f"{alls[0][1]} (in Peer.{t.name})"
+        return "unknown", f"{alls[0][1]} on some paths of Peer.{t.name}"
+    parts = [r for r in res if r[0] == "part"]
+    if parts and len(parts) == len(res):
+        return "part", f"{parts[0][1]} (in Peer.{t.name})"
+    return "unknown", f"Peer.{t.name}"
+
+
+def rule_address_update(ctx: Ctx) -> None:
+    net = ctx.repo.cls("Network", NW)
+    n = 0
+    for fi in net.methods.values():
+        def is_recv(x, fi=fi):
+            return _stored_peer(ctx, net, fi, x)
+        res = [(node, *_addr_write_covers(ctx, fi, node, kind, value, is_recv)) for node, kind, value in _addr_write_sites(fi, is_recv)]
+        for c in calls(fi):
+            r = _peer_method_merges(ctx, fi, c, is_recv)
+            if r is not None:
+                res.append((c, r[0], r[1], c))
+        if not res:
+            continue
+        n += len(res)
+        alls = [r for r in res if r[1] == "all"]
+        parts = [r for r in res if r[1] == "part"]
+        for node, verdict, how, _at in res:
+            if verdict != "part":
+                ctx.instance("coherence", fi.where, f"{fi.name}: `{norm(node)[:60]}` writes {how} into the stored instance's address dict", line=getattr(node, "lineno", 0))
+        for node, _v, how, _at in parts:
+            ctx.check(bool(alls), "coherence", fi, node, f"{fi.name}: the address update of a known identity merges every address of the update into the stored instance",
+                      f"{fi.name} merges {how} of the Peer object it was handed into the instance the graph stores for that identity (`{norm(node)[:70]}`), and nothing in "
+                      f"{fi.name} merges the whole address dict (`stored.addresses.update(peer.addresses)` / a loop over all of peer.addresses): the addresses of the other "
+                      "interfaces of the update are dropped, so the verified peer keeps a replaced (stale) address of a non-preferred interface - lookup by address still "
+                      "returns it for the old address and not for the new one, remove_by_address(new address) does not remove it, and the new address stays walkable")
+    ctx.floor("coherence.address-update", n, 1)
+
+
+# ------------------------------------------------------------------------------------------------------------------
 # LOCAL VIEW.  Behaviour-preserving source rewrites of the analysed files that the load-time normaliser does not do, applied before the
 # rules run (the result is loaded as a variant of the repository, so the normaliser then inlines what these rewrites turned into NEW
 # same-file helpers).  Nothing is rewritten on the reviewed tree (none of the constructs occurs there).  Every rewrite keeps the
@@ -5054,6 +5292,7 @@ def _run(ctx: Ctx) -> None:
     rule_blacklists(ctx)
     rule_by_key(ctx)
     rule_canonical_instances(ctx)
+    rule_address_update(ctx)
     rule_removal(ctx)
     rule_snapshot_codec(ctx)
     rule_external_writers(ctx)
@@ -5202,6 +5441,10 @@ WITNESSES = [
                 break
 
     def snapshot"""},
+    {"name": "address update of a known identity merges only the preferred address of the update (seeded C12-m16)", "file": NW, "rule": "coherence",
+     "old": "                known.addresses.update(peer.addresses)", "new": "                known.add_address(peer.address)"},
+    {"name": "address update of a known identity copies one interface of the update only", "file": NW, "rule": "coherence",
+     "old": "                known.addresses.update(peer.addresses)", "new": "                known.addresses[UDPv4Address] = peer.addresses.get(UDPv4Address)"},
     {"name": "external writer of verified_peers", "file": "ipv8/peerdiscovery/community.py", "rule": "external-writers",
      "old": "        self.network.add_verified_peer(node)\n        self.network.discover_services(node, payload.preference_list)",
      "new": "        self.network.verified_peers.add(node)\n        self.network.discover_services(node, payload.preference_list)"},
